@@ -1135,7 +1135,10 @@ func (eval Evaluator) mulRelinThenAdd(op0 *rlwe.Ciphertext, op1 *rlwe.Element[ri
 		ratio := resScale.Div(opOut.Scale)
 		// Only scales up if int(ratio) >= 2
 		if ratio.Float64() >= 2.0 {
-			if err = eval.Mul(opOut, &ratio.Value, opOut); err != nil {
+			// Scales up by the integer part of the ratio (as Add does to align scales): a non-integer
+			// constant would additionally be scaled by the current prime(s) and leave opOut at another scale.
+			ratioInt, _ := ratio.Value.Int(nil)
+			if err = eval.Mul(opOut, ratioInt, opOut); err != nil {
 				return fmt.Errorf("cannot MulRelinThenAdd: %w", err)
 			}
 			opOut.Scale = resScale
